@@ -3,17 +3,22 @@
    reference dimension for all point sets.  What is proved: the generated validity table against the reference,
    the translated closed forms against the hand-written ones, the basic properties of every polynomial closed
    form, the anisotropic distance, the calculation modes, the closure properties of positive semi-definiteness,
-   the nugget effect, the enclosure of the exp/cos/sin forms, and the refutation of the 'Penta' structure in R^2. *)
+   the nugget effect, the triangle and exponential structures on regular 1-D grids, the enclosure of the exp/cos/sin
+   forms.  The refutation of the pre-fix 'Penta' closed form in R^2 is kept as a regression Example. *)
 From Coq Require Import List ZArith QArith Qabs Qminmax Bool String Reals Qreals.
 From Interval Require Import Xreal Interval.
 From Gst Require Import lib.QAux lib.LinAlgQ C03.Table C03.IEval C03.Model C03.Spec C03.Valid C03.Witness C03.gen.CovTable
-  C03.Proofs C03.Proofs_basic C03.Proofs_psd C03.Proofs_aniso C03.Proofs_encl C03.Proofs_real C03.Proofs_tri.
+  C03.Proofs C03.Proofs_basic C03.Proofs_psd C03.Proofs_aniso C03.Proofs_encl C03.Proofs_real C03.Proofs_tri C03.Proofs_exp.
 Import ListNotations.
 Local Open Scope Q_scope.
 
 (* ---------------------------------------------------------------------------------------------- validity table *)
-(* The table regenerated from the headers agrees with the reference except for the listed discrepancies
-   (each reported as a finding and confirmed on the implementation by a point set). *)
+(* Every structure of the factory except J-Bessel passes every check against the reference table
+   (dimension, IRF order, support within the range, scadef, form / pinned text, parameter range). *)
+Theorem C03_table_ok : forall e, In e cov_table -> ce_name e <> "J-Bessel"%string -> failures e = [].
+Proof. exact table_ok_strict. Qed.
+Print Assumptions C03_table_ok.
+(* J-Bessel: the only remaining discrepancy (declared in every dimension whatever the parameter; known finding) *)
 Theorem C03_table_ok_partial : forall e, In e cov_table ->
   forall code, In code (failures e) -> In (ce_name e, code) known_discrepancies.
 Proof. exact table_entry_ok. Qed.
@@ -53,6 +58,9 @@ Proof.
   apply gen_gc5_ok.
 Qed.
 Print Assumptions C03_translated_forms.
+(* the factory re-checks the dimension on the complete object, and only offers structures compatible with the space *)
+Theorem C03_factory_guard : factory_guards_dimension = true /\ factory_checks_space = true.
+Proof. exact factory_guard_generated. Qed.
 Theorem C03_translated_classes :
   gen_classes = ["CovNugget"; "CovSpherical"; "CovCubic"; "CovLinear"; "CovGC1"; "CovGC3"; "CovGC5"; "CovTriangle";
                  "CovReg1D"; "CovPenta"; "CovWendland0"; "CovWendland1"; "CovWendland2"]%string.
@@ -100,10 +108,11 @@ Theorem C03_factorised : forall h,
   1 - 2 * h + h * h == (1-h)*(1-h) /\
   1 - (h * h) * (10 - h * (20 - h * (15 - h * 4))) == ((1-h)*(1-h)*(1-h)*(1-h)) * (4*h + 1) /\
   1 - (h*h) * ((28#3) - (h*h) * (70 - h * ((448#3) - h * (140 - h * (64 - h * (35#3)))))) ==
-    ((1-h)*(1-h)*(1-h)*(1-h)*(1-h)*(1-h)) * ((35*h*h + 18*h + 3) / 3).
+    ((1-h)*(1-h)*(1-h)*(1-h)*(1-h)*(1-h)) * ((35*h*h + 18*h + 3) / 3) /\
+  1 - h * ((15#8) - (h*h) * ((5#4) - (3#8) * (h*h))) == ((1-h)*(1-h)*(1-h)) * (1 + (9#8)*h + (3#8)*(h*h)).
 Proof.
   intro h. split; [apply spherical_factor|]. split; [apply cubic_factor|]. split; [apply wendland0_factor|].
-  split; [apply wendland1_factor|apply wendland2_factor].
+  split; [apply wendland1_factor|]. split; [apply wendland2_factor|apply penta_factor].
 Qed.
 (* intrinsic structures: the variogram form; rational structures with an integer exponent *)
 Theorem C03_linear_variogram : forall n r h, cor_linear n r 0 - cor_linear n r h == h.
@@ -129,11 +138,12 @@ Proof. exact matern32_basic. Qed.
 Theorem C03_sinc_basic : forall h, (0 < h -> -1 <= corR_sinc h <= 1)%R.
 Proof. exact sinc_basic. Qed.
 
-(* the 'Penta' closed form is the 1-D regularised one, and it does not vanish beyond its range (scadef = 1) *)
-Theorem C03_penta_is_reg1d : forall h, cor_penta h = cor_reg1d h.
-Proof. exact penta_is_reg1d. Qed.
-Theorem C03_penta_beyond_range_refuted : exists h, 1 < h /\ ~ cor_penta h == 0.
-Proof. exact penta_beyond_range. Qed.
+(* the pentaspherical structure *)
+Theorem C03_penta_basic :
+  cor_penta 0 == 1 /\ (forall h, 0 <= h -> 0 <= cor_penta h <= 1) /\ (forall h, 1 <= h -> cor_penta h == 0) /\
+  (forall h, 0 <= h -> h < 1 -> cor_penta h <= (5#2) * (1 - h)).
+Proof. exact penta_basic. Qed.
+Print Assumptions C03_penta_basic.
 
 (* ---------------------------------------------------------------------------------------------- enclosures *)
 (* the square-root bracket used for the normalised distance *)
@@ -210,19 +220,31 @@ Theorem C03_psd_triangle_1d : forall n m, (0 < m)%nat -> psd n (fun i j => cor_t
 Proof. exact psd_triangle_grid. Qed.
 Print Assumptions C03_psd_triangle_1d.
 
-(* ---------------------------------------------------------------------------------------------- the refutation *)
-(* The 'Penta' closed form is not positive semi-definite in R^2: seven points with integer mutual distances,
-   range 32 (all normalised distances rational: the matrix is exact) and a vector x with x^T K x < 0. *)
-Theorem C03_penta_refuted :
+(* the exponential structure on every regular 1-D grid: one-step correlation rho in [0,1], any number of nodes *)
+Theorem C03_psd_exponential_1d : forall n rho, 0 <= rho -> rho <= 1 -> psd n (fun i j => qpow rho (gdist i j)).
+Proof. exact psd_exponential_grid. Qed.
+Print Assumptions C03_psd_exponential_1d.
+
+(* ---------------------------------------------------------------------------------------------- regression *)
+(* The closed form CovPenta.cpp carried before fix C03_1 (the Reg1D form with scale = range) is not positive
+   semi-definite in R^2: seven points with integer mutual distances, range 32 (all normalised distances rational, the
+   matrix is exact) and a vector x with x^T K x < 0; and it does not vanish beyond its range.  The same seven points
+   are replayed on the implementation by the check (key Penta:not-psd-in-2D if the fix is reverted). *)
+Example C03_old_penta_regression :
   exists (pts : list (list Q)) (x : list Q) (K : list (list Q)),
     cov_matrix [penta_cova 32] 2 mode_default 1 pts = map (map (fun v => Some (v, v))) K /\
     forallb (fun p => forallb (fun q => qsqrt_exact (h2_of (penta_cova 32) p q)) pts) pts = true /\
     lquad K x < 0.
 Proof. exists penta_pts, penta_x, penta_K. exact penta_witness. Qed.
-Print Assumptions C03_penta_refuted.
-Theorem C03_penta_not_psd : ~ psd 7 (fun i j => get penta_K i j).
+Example C03_old_penta_not_psd : ~ psd 7 (fun i j => get penta_K i j).
 Proof. exact penta_not_psd. Qed.
-Print Assumptions C03_penta_not_psd.
+Example C03_old_penta_beyond_range : exists h, 1 < h /\ ~ cor_reg1d h == 0.
+Proof. exact old_penta_beyond_range. Qed.
+(* on the same seven points the pentaspherical form gives a positive value for that x *)
+Example C03_penta_witness_now_positive :
+  0 < lquad (map (map point_val) (cov_matrix [{| cv_type := 21; cv_param := 0; cv_scales := [32; 32]; cv_rot := ident2;
+               cv_sill := [[1]]; cv_field := 32; cv_cov0 := 0 |}] 2 mode_default 1 penta_pts)) penta_x.
+Proof. vm_compute. reflexivity. Qed.
 
 (* ---------------------------------------------------------------------------------------------- non-vacuity *)
 (* hypotheses of the theorems above are satisfiable on non-trivial states *)
@@ -258,6 +280,10 @@ Proof.
   - intros i _. rewrite Nat.eqb_refl. reflexivity.
   - intros i j _ _ Hij. destruct (Nat.eqb_spec i j); [contradiction|discriminate].
 Qed.
+Example C03_nonvacuous_exponential :
+  (* rho = 1/2, nodes 0 and 3: correlation 1/8; the hypotheses 0 <= rho <= 1 are satisfiable strictly inside *)
+  qpow (1#2) (gdist 0 3) == 1#8 /\ 0 <= 1#2 /\ (1#2) <= 1.
+Proof. vm_compute. repeat split; discriminate. Qed.
 Example C03_nonvacuous_triangle :
   (* 4 nodes, range = 3 spacings: correlations 1, 2/3, 1/3, 0 *)
   map (fun j => Qred (cor_triangle (grid_h 3 0 j))) [0; 1; 2; 3]%nat = [1; 2#3; 1#3; 0].
